@@ -262,6 +262,41 @@ def subterms(t):
                         yield from subterms(y)
 
 
+def operators(t) -> set:
+    """the uninterpreted operators and free names a term is built from (keyword markers, constants and slices are arguments, not
+    operators)"""
+    out = set()
+    for x in subterms(t):
+        if x[0] == "op" and isinstance(x[1], str):
+            if x[1].startswith("kw.") or x[1] in ("const", "bool", "slice", "tuple", "*", "**"):
+                continue
+            out.add((x[1], x[2]) if x[1] == "name" and len(x) > 2 else x[1])
+        elif x[0] == "sym":
+            out.add(("sym", x[1]))
+    return out
+
+
+def foreign_operators(got: Term, want: Term) -> list:
+    """operators of `got` that the specification term does not use.  A mismatch between two terms proves a difference only when
+    both are written in the same vocabulary: an operator the specification does not know (`einsum` respelled as `sum`, `diff`,
+    ..) may or may not compute the same thing, and the honest verdict is then 'undecided', not 'violation'."""
+    return sorted(str(o) for o in operators(got) - operators(want))
+
+
+def _is_const(t) -> bool:
+    return t[0] in ("num", "none") or t[:2] == ("op", "const") or t[:2] == ("op", "bool")
+
+
+def _const_val(t):
+    if t[0] == "num":
+        return t[1]
+    if t[0] == "none":
+        return None
+    if t[:2] == ("op", "bool"):
+        return t[2]
+    return ast.literal_eval(t[2])
+
+
 _CMP = {ast.LtE: "<=", ast.Lt: "<", ast.GtE: ">=", ast.Gt: ">", ast.Eq: "==", ast.NotEq: "!="}
 _FLIP = {">=": "<=", ">": "<"}
 _INF_SPELLINGS = {"float('inf')", "math.inf", "torch.inf", "np.inf", "numpy.inf", "float('Inf')", "float('infinity')"}
@@ -271,9 +306,11 @@ _IDENTITY_METHODS = {"clone", "contiguous", "detach"}
 class TermEval:
     """evaluates statements over an environment of terms.  `unknown_truth(term, test_node)` decides tests whose value the terms do
     not determine (return True / False, or raise Unsupported)."""
-    def __init__(self, env: Dict[str, Term], unknown_truth: Optional[Callable] = None):
+    def __init__(self, env: Dict[str, Term], unknown_truth: Optional[Callable] = None, functions: Optional[Dict[str, Any]] = None):
         self.env = dict(env)
         self.unknown_truth = unknown_truth
+        self.functions = functions or {}      # name -> ast.FunctionDef of module-level functions whose calls are bound to their signature
+        self._depth = 0
         self.skipped: List[ast.stmt] = []            # arms not taken because the terms decide the test
         self.assumed_skipped: List[ast.stmt] = []    # arms not taken because `unknown_truth` said so (the caller must justify these)
         self._assumed = False
@@ -328,9 +365,19 @@ class TermEval:
             if isinstance(e.op, ast.MatMult):
                 return mm(a, b)
             return ("op", type(e.op).__name__, a, b)
+        if isinstance(e, ast.Compare) and len(e.ops) == 1 and isinstance(e.ops[0], (ast.In, ast.NotIn)):
+            a, b = self.ev(e.left), self.ev(e.comparators[0])
+            if _is_const(a) and b[:2] == ("op", "tuple") and all(_is_const(x) for x in b[2:]):
+                res = any(_const_val(a) == _const_val(x) for x in b[2:])
+                return ("op", "bool", res if isinstance(e.ops[0], ast.In) else not res)
+            return ("op", "in" if isinstance(e.ops[0], ast.In) else "not in", a, b)
+        if isinstance(e, (ast.List, ast.Set)):
+            return ("op", "tuple") + tuple(self.ev(x) for x in e.elts)
         if isinstance(e, ast.Compare) and len(e.ops) == 1 and type(e.ops[0]) in _CMP:
             op = _CMP[type(e.ops[0])]
             a, b = self.ev(e.left), self.ev(e.comparators[0])
+            if op in ("==", "!=") and _is_const(a) and _is_const(b):
+                return ("op", "bool", (_const_val(a) == _const_val(b)) == (op == "=="))
             if op in _FLIP:
                 op, a, b = _FLIP[op], b, a
             if op in ("==", "!=") and _key(a) > _key(b):
@@ -353,16 +400,73 @@ class TermEval:
             return None
         return v if isinstance(v, int) and not isinstance(v, bool) else None
 
+    def known_call(self, fnode, c: ast.Call) -> Term:
+        """a call of a function whose definition is known: the arguments are bound to its signature (defaults filled in, ** passed
+        through), so positional / keyword spellings of one call are one term; a function whose body is a single `return <expr>` is
+        expanded (its value is that expression over the bound arguments)"""
+        a = fnode.args
+        if a.posonlyargs or a.vararg:
+            raise Unsupported("signature of %s" % fnode.name)
+        params = [p.arg for p in a.args]
+        kwonly = [p.arg for p in a.kwonlyargs]
+        bound: Dict[str, Term] = {}
+        if any(isinstance(x, ast.Starred) for x in c.args) or len(c.args) > len(params):
+            raise Unsupported("positional arguments of %s" % fnode.name)
+        for p_, x in zip(params, c.args):
+            bound[p_] = self.ev(x)
+        extra = []
+        passthrough = None
+        for k in c.keywords:
+            if k.arg is None:
+                v = self.ev(k.value)
+                passthrough = v if v[:2] == ("op", "**") else ("op", "**", v)
+            elif k.arg in params + kwonly and k.arg not in bound:
+                bound[k.arg] = self.ev(k.value)
+            elif a.kwarg is not None and k.arg not in bound:
+                extra.append(("op", "kw." + k.arg, self.ev(k.value)))
+            else:
+                raise Unsupported("keyword %s of %s" % (k.arg, fnode.name))
+        if (extra or passthrough is not None) and a.kwarg is None:
+            raise Unsupported("** arguments of %s" % fnode.name)
+        defaults = dict(zip(params[::-1], list(a.defaults)[::-1]))
+        defaults.update({p_: d for p_, d in zip(kwonly, a.kw_defaults) if d is not None})
+        for p_ in params + kwonly:
+            if p_ not in bound:
+                if p_ not in defaults:
+                    raise Unsupported("missing argument %s of %s" % (p_, fnode.name))
+                d = defaults[p_]
+                bound[p_] = TermEval({}).ev(d) if isinstance(d, ast.Constant) else ("op", "default", p_)
+        if a.kwarg is not None:
+            rest = tuple(sorted(extra)) + ((passthrough,) if passthrough is not None else ())
+            bound[a.kwarg.arg] = ("op", "**", ("op", "kwargs") + rest) if (extra or passthrough is None) else passthrough
+        body = [st for st in fnode.body if not (isinstance(st, ast.Expr) and isinstance(st.value, ast.Constant))]
+        if len(body) == 1 and isinstance(body[0], ast.Return) and body[0].value is not None and self._depth < 4:
+            sub = TermEval(bound, self.unknown_truth, self.functions)
+            sub._depth = self._depth + 1
+            return sub.ev(body[0].value)
+        return ("op", fnode.name) + tuple(("op", "arg." + p_, bound[p_]) for p_ in params + kwonly) + \
+            ((bound[a.kwarg.arg],) if a.kwarg is not None else ())
+
     def call(self, c: ast.Call) -> Term:
         f = c.func
         fn = ast.unparse(f)
+        if isinstance(f, ast.Name) and f.id in self.functions and f.id not in self.env:
+            return self.known_call(self.functions[f.id], c)
+        if isinstance(f, ast.Name) and f.id in self.env and self.env[f.id][:2] == ("op", "name") and self.env[f.id][2] in self.functions:
+            return self.known_call(self.functions[self.env[f.id][2]], c)      # a local alias of a known function
         if any(isinstance(a, ast.Starred) for a in c.args) or any(k.arg is None for k in c.keywords):
             # a call with * / ** arguments is an uninterpreted operator of all its argument terms
             parts = [("op", "*", self.ev(a.value)) if isinstance(a, ast.Starred) else self.ev(a) for a in c.args]
-            parts += [("op", "**", self.ev(k.value)) if k.arg is None else ("op", "kw." + k.arg, self.ev(k.value))
+            def _dstar(v):
+                return v if v[:2] == ("op", "**") else ("op", "**", v)
+            parts += [_dstar(self.ev(k.value)) if k.arg is None else ("op", "kw." + k.arg, self.ev(k.value))
                       for k in sorted(c.keywords, key=lambda k: k.arg or "~")]
             head = [self.ev(c.func.value)] if isinstance(c.func, ast.Attribute) and not (isinstance(c.func.value, ast.Name) and c.func.value.id == "torch") else []
             return ("op", c.func.attr if isinstance(c.func, ast.Attribute) else fn) + tuple(head) + tuple(parts)
+        if isinstance(f, ast.Attribute) and f.attr in ("lower", "upper", "strip", "casefold") and not c.args and not c.keywords:
+            recv = self.ev(f.value)
+            if recv[:2] == ("op", "const") and isinstance(_const_val(recv), str):
+                return ("op", "const", repr(getattr(_const_val(recv), f.attr)()))
         # function form torch.f(x, ...) and method form x.f(...) are one operation
         is_torch = isinstance(f, ast.Attribute) and isinstance(f.value, ast.Name) and f.value.id == "torch"
         if is_torch:
@@ -436,6 +540,8 @@ class TermEval:
         v = self.ev(t)
         if v == NONE:
             return False
+        if v[:2] == ("op", "bool"):
+            return bool(v[2])
         if self.unknown_truth is not None:
             self._assumed = True
             return self.unknown_truth(v, t)
